@@ -122,6 +122,7 @@ package crl
 
 // stmt C18 (whole statement)
 //@ func (*HTTPFetcher).Fetch(f, ctx, url)
+//@   refines (Fetcher).Fetch
 //@   props C18 C06
 //@   requires f != nil && f.httpClient != nil
 //@   calls Client.Do, Cache.Get, Cache.Set, HTTPFetcher.fetch, x509.ParseRevocationList
